@@ -2,7 +2,13 @@
 
 package jd
 
-import "fmt"
+import (
+	"encoding/json"
+	"fmt"
+	"reflect"
+	"strconv"
+	"strings"
+)
 
 // Property-level stand-ins (build tag verif): thin wrappers around the public API whose contracts
 // state the listed properties directly. Their contracts are marked "bounded": the verifier does
@@ -157,4 +163,617 @@ func verifReadMergeDeterministic(n JsonNode) bool {
 // verifEquals is a.Equals(b, options...).
 func verifEquals(a, b JsonNode, options []Option) bool {
 	return a.Equals(b, options...)
+}
+
+// ---------------------------------------------------------------------
+// Independent reference evaluators (written from the RFCs, operating on plain
+// interface{} JSON values, sharing no code with the library).
+
+func verifPlain(n JsonNode) interface{} {
+	if isVoid(n) {
+		return verifAbsent{}
+	}
+	var v interface{}
+	if err := json.Unmarshal([]byte(n.Json()), &v); err != nil {
+		panic("verifPlain: " + err.Error())
+	}
+	return v
+}
+
+// verifAbsent marks the empty document.
+type verifAbsent struct{}
+
+func verifPointerTokens(p string) ([]string, error) {
+	if p == "" {
+		return nil, nil
+	}
+	if p[0] != '/' {
+		return nil, fmt.Errorf("pointer must start with /")
+	}
+	parts := strings.Split(p[1:], "/")
+	for i, t := range parts {
+		t = strings.ReplaceAll(t, "~1", "/")
+		t = strings.ReplaceAll(t, "~0", "~")
+		parts[i] = t
+	}
+	return parts, nil
+}
+
+func verifArrayIndex(tok string, n int, allowEnd bool) (int, error) {
+	if tok == "-" {
+		if allowEnd {
+			return n, nil
+		}
+		return 0, fmt.Errorf("- not allowed here")
+	}
+	if tok == "" || (len(tok) > 1 && tok[0] == '0') {
+		return 0, fmt.Errorf("bad index %q", tok)
+	}
+	i := 0
+	for _, c := range tok {
+		if c < '0' || c > '9' {
+			return 0, fmt.Errorf("bad index %q", tok)
+		}
+		i = i*10 + int(c-'0')
+		if i > 1<<20 {
+			return 0, fmt.Errorf("index too large")
+		}
+	}
+	if i > n || (!allowEnd && i >= n) {
+		return 0, fmt.Errorf("index %d out of range", i)
+	}
+	return i, nil
+}
+
+func verifPtrGet(doc interface{}, toks []string) (interface{}, error) {
+	for _, t := range toks {
+		switch c := doc.(type) {
+		case map[string]interface{}:
+			v, ok := c[t]
+			if !ok {
+				return nil, fmt.Errorf("no member %q", t)
+			}
+			doc = v
+		case []interface{}:
+			i, err := verifArrayIndex(t, len(c), false)
+			if err != nil {
+				return nil, err
+			}
+			doc = c[i]
+		default:
+			return nil, fmt.Errorf("cannot descend into scalar")
+		}
+	}
+	return doc, nil
+}
+
+// verifPtrEdit applies add (mode 0) or remove (mode 1) at toks and returns the new document.
+func verifPtrEdit(doc interface{}, toks []string, mode int, val interface{}) (interface{}, error) {
+	if len(toks) == 0 {
+		if mode == 0 {
+			return val, nil
+		}
+		return verifAbsent{}, nil
+	}
+	t := toks[0]
+	switch c := doc.(type) {
+	case map[string]interface{}:
+		out := map[string]interface{}{}
+		for k, v := range c {
+			out[k] = v
+		}
+		if len(toks) == 1 {
+			if mode == 0 {
+				out[t] = val
+			} else {
+				if _, ok := out[t]; !ok {
+					return nil, fmt.Errorf("remove of missing member %q", t)
+				}
+				delete(out, t)
+			}
+			return out, nil
+		}
+		child, ok := c[t]
+		if !ok {
+			return nil, fmt.Errorf("no member %q", t)
+		}
+		nc, err := verifPtrEdit(child, toks[1:], mode, val)
+		if err != nil {
+			return nil, err
+		}
+		out[t] = nc
+		return out, nil
+	case []interface{}:
+		if len(toks) == 1 {
+			i, err := verifArrayIndex(t, len(c), mode == 0)
+			if err != nil {
+				return nil, err
+			}
+			out := []interface{}{}
+			out = append(out, c[:i]...)
+			if mode == 0 {
+				out = append(out, val)
+				out = append(out, c[i:]...)
+			} else {
+				out = append(out, c[i+1:]...)
+			}
+			return out, nil
+		}
+		i, err := verifArrayIndex(t, len(c), false)
+		if err != nil {
+			return nil, err
+		}
+		nc, err := verifPtrEdit(c[i], toks[1:], mode, val)
+		if err != nil {
+			return nil, err
+		}
+		out := append([]interface{}{}, c...)
+		out[i] = nc
+		return out, nil
+	}
+	return nil, fmt.Errorf("cannot descend into scalar or absent document")
+}
+
+// verifRFC6902 evaluates a JSON Patch document (RFC 6902: add, remove, replace, test) on doc.
+func verifRFC6902(doc interface{}, patch string) (interface{}, error) {
+	var ops []map[string]interface{}
+	if err := json.Unmarshal([]byte(patch), &ops); err != nil {
+		return nil, err
+	}
+	for _, op := range ops {
+		ps, _ := op["path"].(string)
+		toks, err := verifPointerTokens(ps)
+		if err != nil {
+			return nil, err
+		}
+		switch op["op"] {
+		case "test":
+			got, err := verifPtrGet(doc, toks)
+			if err != nil {
+				return nil, err
+			}
+			if !reflect.DeepEqual(got, op["value"]) {
+				return nil, fmt.Errorf("test failed at %s", ps)
+			}
+		case "remove":
+			if doc, err = verifPtrEdit(doc, toks, 1, nil); err != nil {
+				return nil, err
+			}
+		case "add":
+			if doc, err = verifPtrEdit(doc, toks, 0, op["value"]); err != nil {
+				return nil, err
+			}
+		case "replace":
+			if _, err := verifPtrGet(doc, toks); err != nil {
+				return nil, err
+			}
+			if doc, err = verifPtrEdit(doc, toks, 1, nil); err != nil {
+				return nil, err
+			}
+			if doc, err = verifPtrEdit(doc, toks, 0, op["value"]); err != nil {
+				return nil, err
+			}
+		default:
+			return nil, fmt.Errorf("unsupported op %v", op["op"])
+		}
+	}
+	return doc, nil
+}
+
+// verifMergePatch is the MergePatch pseudocode of RFC 7386.
+func verifMergePatch(target, patch interface{}) interface{} {
+	pm, ok := patch.(map[string]interface{})
+	if !ok {
+		return patch
+	}
+	tm, ok := target.(map[string]interface{})
+	out := map[string]interface{}{}
+	if ok {
+		for k, v := range tm {
+			out[k] = v
+		}
+	}
+	for name, value := range pm {
+		if value == nil {
+			delete(out, name)
+		} else {
+			out[name] = verifMergePatch(out[name], value)
+		}
+	}
+	return out
+}
+
+// verifPlainEq: equality of plain values, arrays read per the options (list / set / multiset).
+func verifPlainEq(x, y interface{}, options []Option) bool {
+	nx, err1 := NewJsonNode(verifUnabsent(x))
+	ny, err2 := NewJsonNode(verifUnabsent(y))
+	if err1 != nil || err2 != nil {
+		return false
+	}
+	_, ax := x.(verifAbsent)
+	_, ay := y.(verifAbsent)
+	if ax || ay {
+		return ax == ay
+	}
+	return nx.Equals(ny, options...)
+}
+
+func verifUnabsent(x interface{}) interface{} {
+	if _, ok := x.(verifAbsent); ok {
+		return nil
+	}
+	return x
+}
+
+// ---------------------------------------------------------------------
+// C02: native jd text is a lossless carrier.
+
+var verifANSI = strings.NewReplacer(colorDefault, "", colorRed, "", colorGreen, "")
+
+// verifTextCarrier: render d, read it back: same text, same effect on a; colour adds only ANSI codes.
+func verifTextCarrier(a JsonNode, d Diff, options []Option) bool {
+	s := d.Render(options...)
+	d2, err := ReadDiffString(s)
+	if err != nil {
+		return false
+	}
+	if d2.Render(options...) != s {
+		return false
+	}
+	r1, e1 := verifCloneNode(a).Patch(verifCloneDiff(d))
+	r2, e2 := verifCloneNode(a).Patch(d2)
+	if (e1 == nil) != (e2 == nil) {
+		return false
+	}
+	if e1 == nil && verifLit(verifNormKinds(r1)) != verifLit(verifNormKinds(r2)) {
+		return false
+	}
+	if verifANSI.Replace(d.Render(append(append([]Option{}, options...), COLOR)...)) != s {
+		return false
+	}
+	return true
+}
+
+// verifNormKinds rewrites typed arrays (list/set/multiset) to plain arrays, recursively.
+func verifNormKinds(n JsonNode) JsonNode {
+	switch v := n.(type) {
+	case jsonList:
+		return verifNormKinds(jsonArray(v))
+	case jsonSet:
+		return verifNormKinds(jsonArray(v))
+	case jsonMultiset:
+		return verifNormKinds(jsonArray(v))
+	case jsonArray:
+		out := make(jsonArray, len(v))
+		for i, e := range v {
+			out[i] = verifNormKinds(e)
+		}
+		return out
+	case jsonObject:
+		out := jsonObject{}
+		for k, e := range v {
+			out[k] = verifNormKinds(e)
+		}
+		return out
+	}
+	return n
+}
+
+func verifDiffText(a, b JsonNode, options []Option) bool {
+	return verifTextCarrier(a, a.Diff(b, options...), options)
+}
+
+// verifWellFormed: hunks the text format can carry: strict hunks followed by merge hunks, every
+// value free of nil, multi-value hunks only on array paths, at least one change line per hunk,
+// void only as context marker or merge deletion.
+func verifWellFormed(d Diff) bool {
+	seenMerge := false
+	for _, e := range d {
+		if e.Metadata.Merge {
+			seenMerge = true
+		} else if seenMerge {
+			return false
+		}
+		if checkDiffElement(e) != nil || !validHunk(e) {
+			return false
+		}
+		if len(e.Remove)+len(e.Add) == 0 {
+			return false
+		}
+		for _, v := range e.Remove {
+			if isVoid(v) {
+				return false
+			}
+		}
+		for _, v := range e.Add {
+			if isVoid(v) && !(e.Metadata.Merge && len(e.Add) == 1) {
+				return false
+			}
+		}
+		// context: before only [ or values with [ first; after only values then ]
+		for i, v := range e.Before {
+			if isVoid(v) && i != 0 {
+				return false
+			}
+		}
+		for i, v := range e.After {
+			if isVoid(v) && i != len(e.After)-1 {
+				return false
+			}
+		}
+		if e.Metadata.Merge && (len(e.Remove) > 0 || len(e.Before)+len(e.After) > 0) {
+			return false
+		}
+	}
+	return true
+}
+
+// ---------------------------------------------------------------------
+// C06 / C07: list diffs are minimal and carry adjacent context; hunks describe real differences.
+
+func verifLCSLen(a, b []JsonNode) int {
+	t := make([][]int, len(a)+1)
+	for i := range t {
+		t[i] = make([]int, len(b)+1)
+	}
+	for i := 1; i <= len(a); i++ {
+		for j := 1; j <= len(b); j++ {
+			if a[i-1].Equals(b[j-1]) {
+				t[i][j] = t[i-1][j-1] + 1
+			} else if t[i-1][j] >= t[i][j-1] {
+				t[i][j] = t[i-1][j]
+			} else {
+				t[i][j] = t[i][j-1]
+			}
+		}
+	}
+	return t[len(a)][len(b)]
+}
+
+func verifAllScalars(a []JsonNode) bool {
+	for _, e := range a {
+		switch e.(type) {
+		case jsonArray, jsonObject:
+			return false
+		}
+	}
+	return true
+}
+
+// verifListMinimal: for arrays of scalars the list diff removes len(a)-LCS and adds len(b)-LCS
+// elements; every list hunk has exactly one before and one after context line.
+func verifListMinimal(a, b jsonArray) bool {
+	d := a.Diff(b)
+	rm, ad := 0, 0
+	for _, e := range d {
+		if len(e.Path) == 0 {
+			continue
+		}
+		if _, ok := e.Path[len(e.Path)-1].(PathIndex); !ok {
+			continue
+		}
+		if len(e.Before) != 1 || len(e.After) != 1 {
+			return false
+		}
+		rm += len(e.Remove)
+		ad += len(e.Add)
+	}
+	if verifAllScalars(a) && verifAllScalars(b) {
+		l := verifLCSLen(a, b)
+		if rm != len(a)-l || ad != len(b)-l {
+			return false
+		}
+	}
+	return true
+}
+
+// verifContextAdjacent: applying the hunks one by one, each list hunk's context equals the
+// neighbours of the edited position in the document as it is at that moment.
+func verifContextAdjacent(a, b JsonNode) bool {
+	d := a.Diff(b)
+	cur := verifCloneNode(a)
+	for _, e := range d {
+		if len(e.Path) > 0 {
+			if idx, ok := e.Path[len(e.Path)-1].(PathIndex); ok {
+				arr, found := verifArrayAt(cur, e.Path[:len(e.Path)-1])
+				if !found || len(e.Before) != 1 || len(e.After) != 1 {
+					return false
+				}
+				i := int(idx)
+				if i == 0 {
+					if !isVoid(e.Before[0]) {
+						return false
+					}
+				} else if i-1 >= len(arr) || !e.Before[0].Equals(arr[i-1]) {
+					return false
+				}
+				j := i + len(e.Remove)
+				if j == len(arr) {
+					if !isVoid(e.After[0]) {
+						return false
+					}
+				} else if j > len(arr) || !e.After[0].Equals(arr[j]) {
+					return false
+				}
+			}
+		}
+		next, err := cur.Patch(Diff{e})
+		if err != nil {
+			return false
+		}
+		cur = next
+	}
+	return true
+}
+
+func verifArrayAt(n JsonNode, p Path) ([]JsonNode, bool) {
+	for _, pe := range p {
+		switch e := pe.(type) {
+		case PathKey:
+			o, ok := n.(jsonObject)
+			if !ok {
+				return nil, false
+			}
+			n, ok = o[string(e)]
+			if !ok {
+				return nil, false
+			}
+		case PathIndex:
+			l := specElems(n)
+			if int(e) < 0 || int(e) >= len(l) {
+				return nil, false
+			}
+			n = l[int(e)]
+		default:
+			return nil, false
+		}
+	}
+	switch n.(type) {
+	case jsonArray, jsonList:
+		return specElems(n), true
+	}
+	return nil, false
+}
+
+// verifHunksReal (C07): what a hunk removes differs from what it adds, and leaving any single hunk
+// out, the remaining hunks no longer turn a into b.
+func verifHunksReal(a, b JsonNode, options []Option) bool {
+	d := a.Diff(b, options...)
+	for _, e := range d {
+		if verifLit(verifNormKinds(jsonArray(e.Remove))) == verifLit(verifNormKinds(jsonArray(e.Add))) {
+			return false
+		}
+	}
+	if !verifDomain(a, b, options) {
+		return true
+	}
+	for skip := range d {
+		rest := append(append(Diff{}, d[:skip]...), d[skip+1:]...)
+		r, err := verifCloneNode(a).Patch(verifCloneDiff(rest))
+		if err == nil && r.Equals(b, options...) {
+			return false
+		}
+	}
+	return true
+}
+
+// ---------------------------------------------------------------------
+// C09 / C10: RFC 6902.
+
+// verifPointerExpressible: keys that JSON Pointer output can carry (not number-like, not "-").
+func verifPointerExpressible(n JsonNode) bool {
+	switch v := n.(type) {
+	case jsonObject:
+		for k, e := range v {
+			if _, err := strconv.Atoi(k); err == nil || k == "-" {
+				return false
+			}
+			if !verifPointerExpressible(e) {
+				return false
+			}
+		}
+	case jsonArray:
+		for _, e := range v {
+			if !verifPointerExpressible(e) {
+				return false
+			}
+		}
+	}
+	return true
+}
+
+// verifRenderPatchFaithful (C09): the rendered JSON Patch, evaluated by the independent evaluator on a, yields b.
+func verifRenderPatchFaithful(a, b JsonNode) bool {
+	d := a.Diff(b)
+	p, err := d.RenderPatch()
+	if err != nil {
+		return false
+	}
+	if isVoid(a) || isVoid(b) {
+		return true // the empty document is not a JSON value: outside RFC 6902
+	}
+	r, err := verifRFC6902(verifPlain(a), p)
+	if err != nil {
+		return false
+	}
+	return verifPlainEq(r, verifPlain(b), nil)
+}
+
+// verifReadPatchFaithful (C10): reading jd's own JSON Patch and applying it to a gives b; and on any
+// target c where jd applies the read patch, the independent evaluation agrees.
+func verifReadPatchFaithful(a, b, c JsonNode) bool {
+	if isVoid(a) || isVoid(b) || isVoid(c) {
+		return true
+	}
+	p, err := a.Diff(b).RenderPatch()
+	if err != nil {
+		return false
+	}
+	d, err := ReadPatchString(p)
+	if err != nil {
+		return false
+	}
+	r, err := verifCloneNode(a).Patch(verifCloneDiff(d))
+	if err != nil || !r.Equals(b) {
+		return false
+	}
+	rc, err := verifCloneNode(c).Patch(verifCloneDiff(d))
+	if err == nil {
+		ref, rerr := verifRFC6902(verifPlain(c), p)
+		if rerr != nil || !verifPlainEq(ref, verifPlain(rc), nil) {
+			return false
+		}
+	}
+	return true
+}
+
+// ---------------------------------------------------------------------
+// C11 / C12: RFC 7386.
+
+// verifRenderMergeFaithful (C11): MergePatch(a, RenderMerge(a.Diff(b, MERGE...))) equals b.
+func verifRenderMergeFaithful(a, b JsonNode, options []Option) bool {
+	d := a.Diff(b, options...)
+	m, err := d.RenderMerge()
+	if err != nil {
+		return false
+	}
+	var patch interface{}
+	if err := json.Unmarshal([]byte(m), &patch); err != nil {
+		return false
+	}
+	return verifPlainEq(verifMergePatch(verifPlain(a), patch), verifPlain(b), verifEqualOptions(options))
+}
+
+// verifReadMergeFaithful (C12): reading a merge patch and applying it equals MergePatch(target, patch).
+func verifReadMergeFaithful(target, patch JsonNode) bool {
+	d, err := ReadMergeString(patch.Json())
+	if err != nil {
+		return false
+	}
+	r, err := verifCloneNode(target).Patch(d)
+	if err != nil {
+		return false
+	}
+	want := verifMergePatch(verifPlain(target), verifPlain(patch))
+	return verifPlainEq(verifPlain(r), want, nil)
+}
+
+// ---------------------------------------------------------------------
+// C16: JSON and YAML are interchangeable carriers.
+
+func verifYamlJson(n JsonNode) bool {
+	y, err := ReadYamlString(n.Yaml())
+	if err != nil || !y.Equals(n) || !n.Equals(y) {
+		return false
+	}
+	j, err := ReadJsonString(n.Json())
+	if err != nil || !j.Equals(n) {
+		return false
+	}
+	// JSON text is YAML: reading it as YAML gives the same document
+	jy, err := ReadYamlString(n.Json())
+	if err != nil || !jy.Equals(n) {
+		return false
+	}
+	return true
 }
